@@ -62,6 +62,14 @@ func runC11(c *Ctx) {
 		payload := gen.Payload(r, false)
 		msg := &cose.SignMessage{Headers: c01headers(r, 0, 1, 3, 0), Payload: payload}
 		delete(msg.Headers.Protected, int64(1))
+		if rep%5 == 4 {
+			// an alg in the BODY protected header says nothing about the signers (each COSE_Signature
+			// names its own): whatever it is, a valid multi-algorithm message stays valid
+			if msg.Headers.Protected == nil {
+				msg.Headers.Protected = cose.ProtectedHeader{}
+			}
+			msg.Headers.Protected[int64(1)] = mon.Pick(r, cose.AlgorithmES256, cose.AlgorithmPS512, cose.AlgorithmEdDSA, cose.Algorithm(99))
+		}
 		signers := make([]cose.Signer, n)
 		for j, k := range ks {
 			msg.Signatures = append(msg.Signatures, &cose.Signature{Headers: c01headers(r, k.Alg, 0, 2, 0)})
@@ -272,6 +280,46 @@ func runC11(c *Ctx) {
 			rec.Class(fmt.Sprintf("n=%d/spy-refuses-at=%d", n, bad))
 			if e == nil {
 				rec.Violate("all-or-nothing", fmt.Sprintf("n=%d/bad=%d", n, bad), "Verify returned nil although the verifier at this position refused", in)
+			}
+		}
+		// signers and verifiers of algorithms the library has no name for (private-use identifiers):
+		// every position is consulted, and a refusal at any position fails the whole verification
+		{
+			cm := &cose.SignMessage{Headers: msg.Headers, Payload: payload}
+			csigners := make([]cose.Signer, n)
+			calgs := make([]cose.Algorithm, n)
+			for j := 0; j < n; j++ {
+				calgs[j] = mon.Pick(r, cose.Algorithm(-70000-j), cose.Algorithm(70000+j), cose.Algorithm(-65536), cose.AlgorithmES256)
+				cm.Signatures = append(cm.Signatures, &cose.Signature{Headers: cose.Headers{Protected: cose.ProtectedHeader{int64(1): calgs[j]}, Unprotected: cose.UnprotectedHeader{}}})
+				csigners[j] = &mon.SpySigner{Alg: calgs[j]}
+			}
+			var e error
+			if guard(rec, "SignMessage.Sign(custom algs)", in, func() { e = cm.Sign(gen.Entropy, ext, csigners...) }) {
+				return
+			}
+			if e == nil {
+				for bad := -1; bad < n; bad++ {
+					var log []mon.VerifyCall
+					cvs := make([]cose.Verifier, n)
+					for j := range cvs {
+						sv := &mon.SpyVerifier{Alg: calgs[j], Index: j, Log: &log}
+						if j == bad {
+							sv.Err = cose.ErrVerification
+						}
+						cvs[j] = sv
+					}
+					if guard(rec, "SignMessage.Verify(custom algs)", in, func() { e = cm.Verify(ext, cvs...) }) {
+						return
+					}
+					rec.Eval(1)
+					rec.Class(fmt.Sprintf("n=%d/custom-algs/refuses-at=%d", n, bad))
+					if bad >= 0 && e == nil {
+						rec.Violate("all-or-nothing", fmt.Sprintf("n=%d/custom-alg/bad=%d", n, bad), fmt.Sprintf("Verify returned nil although the verifier (algorithm %d) at this position refused", int64(calgs[bad])), in)
+					}
+					if bad < 0 && (e != nil || len(log) != n) {
+						rec.Violate("spy-verify", fmt.Sprintf("n=%d/custom-alg", n), fmt.Sprintf("all verifiers of private-use algorithms accept: err=%v, %d of %d consulted", e, len(log), n), in)
+					}
+				}
 			}
 		}
 		// a verifier that crashes at each position: the panic reaches the caller or becomes an error,
